@@ -22,7 +22,13 @@ struct Ctx<'a> {
     sample_one_in: u64,
     attack_one_in: u64,
     panics: u64,
+    /// reference for the every-node attack-map comparison: replaced by a brand-new generator every
+    /// ATTACK_REF_LIFETIME questions, so it never holds enough entries to alias with itself
+    attack_ref: MoveGenerator,
+    attack_ref_asked: u64,
 }
+
+const ATTACK_REF_LIFETIME: u64 = 2000;
 
 impl<'a> Ctx<'a> {
     /// returns the long-lived generator's move list (the walk continues with it, as real callers do)
@@ -71,6 +77,30 @@ impl<'a> Ctx<'a> {
             writeln!(self.out, "{}", json!({"ev": "Q", "what": "moves", "pos": pos.to_json(), "key": limbs(board.current_position_hash()),
                 "side": pos.turn, "long": with_eff(&a), "fresh": with_eff(&b)})).unwrap();
             self.logged += 1;
+        }
+        // every node: the long-lived generator's attack maps (both colours) against a generator that is at most
+        // ATTACK_REF_LIFETIME questions old. The long-lived attack cache thereby holds one entry per colour and
+        // distinct node of the whole recording (several 10^5): a key that tells fewer positions apart than the
+        // 64-bit position key (a truncated or folded key) serves a stale map to one of them
+        if self.attack_ref_asked >= ATTACK_REF_LIFETIME {
+            self.attack_ref = MoveGenerator::with_cache_capacity(1);
+            self.attack_ref_asked = 0;
+        }
+        for c in [Color::White, Color::Black] {
+            self.attack_checks += 1;
+            self.attack_ref_asked += 1;
+            let x = guarded(|| squares_of(self.long.get_attack_targets(board, c)));
+            let y = guarded(|| squares_of(self.attack_ref.get_attack_targets(board, c)));
+            if let (Ok(x), Ok(y)) = (x, y) {
+                if x != y {
+                    self.attack_diffs += 1;
+                    if self.attack_diffs <= 300 {
+                        writeln!(self.out, "{}", json!({"ev": "Q", "what": "attacks", "pos": pos.to_json(), "key": limbs(board.current_position_hash()),
+                            "side": turn_code(c), "long": x, "fresh": y})).unwrap();
+                        self.logged += 1;
+                    }
+                }
+            }
         }
         if (differs && self.move_diffs <= 300) || self.rng.chance(1, self.attack_one_in) {
             let mut brand_new = MoveGenerator::with_cache_capacity(1);
@@ -144,6 +174,8 @@ pub fn main(args: &[String]) {
         sample_one_in: arg_u64(args, "--sample-one-in", 200),
         attack_one_in: arg_u64(args, "--attack-one-in", 100),
         panics: 0,
+        attack_ref: MoveGenerator::with_cache_capacity(1),
+        attack_ref_asked: 0,
     };
     // (i) perft-shaped walks: the start position (contains 1.a4 h6 2.a5 b5 / 1.a4 b5 2.a5 h6 at depth 4) and seeds
     let mut b = Board::starting_position();
